@@ -16,10 +16,12 @@ def load_crate(repo):
             if not f.endswith('.rs') or f == 'tests.rs' or '/tests/' in rel or rel.endswith('/tests.rs'):
                 continue
             try:
-                items = rsparse.parse_file(open(p).read())
+                items, errs = rsparse.parse_file2(open(p).read())
             except Unsupported as e:
                 crate['errors'][rel] = str(e)
                 continue
+            for k, e in enumerate(errs):
+                crate['errors']['%s#%d' % (rel, k)] = e
             ren = RENAME_IMPL.get(rel, {})
             for it in items:
                 if it[0] == 'const':
@@ -79,6 +81,7 @@ sys.setrecursionlimit(20000)
 
 HEADER = ('From Coq Require Import NArith List Bool Lia.\nFrom RL Require Import Model.Decode Model.Encode Proofs.ReaderLemmas Proofs.RefineAvp Proofs.GenSupport.\n'
           'Import ListNotations. Open Scope N_scope.\n')
+HEADERS = {}     # functions whose tie file needs other imports than HEADER
 SIG = {'gen_decode_avp': '(t : N) : prog (dres avp)', 'gen_data_read': '(w : N) : prog (dres data_msg)',
        'gen_ctrl_read': '(w : N) (o : opts) : prog (result (list derr) ctrl_msg)', 'gen_msg_read': '(o : opts) : prog mres'}
 
@@ -222,6 +225,17 @@ def translate_all(repo):
                                   'Proof. intros. unfold gen_flags_new, flags_new, set_bit. destruct control, l, s, o, p; cbv iota; guard2 (version <=? 15) (15 <? version). Qed.\n')]
     except Unsupported as e:
         fails['gen_flags_new'] = str(e)
+    # the slice / Vec code: SliceReader, VecWriter, AVP::hide, AVP::reveal (rs2v/vec.py, rs2v/vecbuild.py)
+    try:
+        from . import vecbuild
+        vd, vt, vf = vecbuild.translate(crate, repo)
+        defs.update(vd)
+        ties.update(vt)
+        fails.update(vf)
+        for n in vecbuild.NAMES:
+            HEADERS[n] = vecbuild.HEADER
+    except Exception as e:      # never take the decoder/encoder ties down with it
+        fails['gen_vec'] = 'translator error: %s' % repr(e)[:160]
     return defs, ties, fails
 
 
